@@ -6,7 +6,8 @@ def run(rep):
     common.load_contracts()
     from contracts.grouping import DELIMITER_CASES, MATCHER_SHAPE_CASES
     return generic.run_generic(
-        rep, [(tc.GT, 'new group'), (tc.GT, 'extend flag')] + tc.MATCHER_FUNCS + tc.JOINER_FUNCS[:1] + list(DELIMITER_CASES) + list(MATCHER_SHAPE_CASES),
+        rep, [(tc.GT, 'new group'), (tc.GT, 'extend flag')] + tc.MATCHER_FUNCS + tc.JOINER_FUNCS[:1] + list(DELIMITER_CASES) + list(MATCHER_SHAPE_CASES)
+        + [('sqlparse.sql.Token.__init__', 'body')],   # closers such as END IF are matched on the normalized text
         structural=[tc.pass_order, tc.grouping_frame, tc.identity_side_conditions],
         assumptions=['group_tokens(cls, open_idx, close_idx) creates ONE group that owns exactly tokens[open_idx..close_idx] '
                      '(proved): its first child is the opener and its last child the closer whenever the driver passes '
